@@ -58,6 +58,10 @@ CLAIMED = {
          "Exploration. Generated expressions over every op_* builder with boundary operands, nested entry values, forward/backward/to-end branches, in-unit and cross-unit references before/after the referring entry, versions 2-5 x formats x address sizes x byte orders, three placements. Emitted bytes must decode to the built operations, branches must land on the intended operation, references must resolve to the intended entry, the container must parse back intact (length prefix = bytes emitted; the writer's own size assertions are live in the dev profile), evaluation results must agree, and forward ULEB references / references in CFI must be refused.",
          "Trusts gimli's operation decoder (checked against the independent decoder in C07) and harness/src/exprvm.rs for evaluation. Branch displacements beyond 16 bits, typed constants over 255 bytes and pre-v5 location expressions over 65535 bytes may be refused.",
          "DESIGN.md §4 C15"),
+ 'C16': ("proptest random range/location lists (valid-by-construction and boundary-valued) added to units through gimli::write; round trip write->read against the harness's list-resolution model, an independent representability verdict for refusals, id equality and an independent section walker for de-duplication",
+         "Exploration. Generated units (versions 2-5 x formats x address sizes x byte orders x low_pc absent/zero/non-zero) with several lists incl. duplicates and boundary entries are written and read back through attr_ranges/attr_locations: the resolved ranges and per-range expressions must equal the model's resolution of the request; equal lists must share an id and exactly one emitted copy; lists that are not representable unambiguously (empty ranges, offset pairs without / address pairs with a base, default location pre-v5, begin = base-selection marker, begin + length overflow, values wider than the address size) must be refused.",
+         "Trusts the resolution model in harness/src/c08.rs (itself compared against gimli's reader on assembler-built lists in C08). An offset pair under a zero low_pc may be refused.",
+         "DESIGN.md §4 C16"),
 }
 NOT_YET = "check not built yet in this session (machinery is being extended property by property; see DESIGN.md §4)"
 
